@@ -135,6 +135,31 @@ partial def expNames : PExp → List String
   | .un _ e => expNames e
   | _ => []
 
+/-- texts of the `Primitive::Number` literals and of the opaque primitives (arrays, graphs) of an expression -/
+partial def expLiterals : PExp → List String × List String
+  | .num t => ([t], [])
+  | .prim d => ([], [d])
+  | .cvar _ as | .access _ as | .call _ as | .block _ as =>
+    as.foldl (fun acc e => let r := expLiterals e; (acc.1 ++ r.1, acc.2 ++ r.2)) ([], [])
+  | .scoped _ _ its b =>
+    (its ++ [b]).foldl (fun acc e => let r := expLiterals e; (acc.1 ++ r.1, acc.2 ++ r.2)) ([], [])
+  | .bin _ l r => let a := expLiterals l; let b := expLiterals r; (a.1 ++ b.1, a.2 ++ b.2)
+  | .un _ e => expLiterals e
+  | _ => ([], [])
+
+/-- an integral float beyond the `i64` range is printed without a fractional part (`100000000000000000000`),
+which the parser reads as an integer literal that overflows -/
+def integralBeyondI64 (t : String) : Bool :=
+  !t.toList.isEmpty && t.toList.all isDigit && decide (digitsToNat t.toList > i64Max)
+
+/-- `Debug` of an `f64` inside an array: exponent notation (`1e-6`, `1e16`), which the grammar has no syntax for -/
+def hasExponentNumber (d : String) : Bool :=
+  let rec go : List Char → Bool
+    | a :: 'e' :: b :: rest => (isDigit a && (isDigit b || b == '-')) || go ('e' :: b :: rest)
+    | _ :: rest => go rest
+    | [] => false
+  go d.toList
+
 def modelNames (m : PModel) : List String :=
   expNames m.objective
     ++ m.constraints.flatMap (fun c => (match c.name with | some (.plain n) => [n] | _ => []) ++ expNames c.lhs ++ expNames c.rhs ++ c.iters.flatMap expNames)
@@ -201,7 +226,12 @@ def oracle : List Sexp → Sexp
         if b.objKind == .solve then app "violation" [.atom "solve-objective-printed-with-operand"]
         else match (modelNames b).find? badEscapedName with
           | some n => app "violation" [.atom "escaped-simple-variable-with-underscore", .str n]
-          | none => app "violation" [.atom "formatted-text-does-not-parse"]
+          | none =>
+            let lits := (slots b).foldl (fun acc x => let r := expLiterals x.2; (acc.1 ++ r.1, acc.2 ++ r.2)) (([], []) : List String × List String)
+            match lits.1.find? integralBeyondI64, lits.2.find? hasExponentNumber with
+            | some t, _ => app "violation" [.atom "integral-float-beyond-i64-printed-as-integer", .str t]
+            | none, some d => app "violation" [.atom "array-number-printed-in-exponent-notation", .str d]
+            | none, none => app "violation" [.atom "formatted-text-does-not-parse"]
       | a =>
         match PModel.dec a with
         | none => app "err" [.atom "decode-after"]
